@@ -88,52 +88,54 @@ Hex(n, upper) == LET tab == IF upper THEN HexUpper ELSE HexLower IN
 -----------------------------------------------------------------------------
 (* Status codes.  One row per variant of humphrey::http::StatusCode (status.rs); `p` is the reason  *)
 (* phrase registered by RFC 7231 section 6.1 (IANA HTTP Status Code Registry), `alt` the older RFC    *)
-(* 2616 phrase where the registry changed it - DESIGN 5a: both are accepted for 413, 414, 416.        *)
+(* 2616 phrase where the registry changed it - DESIGN 5a: both are accepted for 413, 414, 416 -, `alt2`    *)
+(* the RFC 9110 phrase where that differs again (413).                                                 *)
 StatusRows == <<
-  [c |-> 100, p |-> "Continue",                       alt |-> ""],
-  [c |-> 101, p |-> "Switching Protocols",            alt |-> ""],
-  [c |-> 200, p |-> "OK",                             alt |-> ""],
-  [c |-> 201, p |-> "Created",                        alt |-> ""],
-  [c |-> 202, p |-> "Accepted",                       alt |-> ""],
-  [c |-> 203, p |-> "Non-Authoritative Information",  alt |-> ""],
-  [c |-> 204, p |-> "No Content",                     alt |-> ""],
-  [c |-> 205, p |-> "Reset Content",                  alt |-> ""],
-  [c |-> 206, p |-> "Partial Content",                alt |-> ""],
-  [c |-> 300, p |-> "Multiple Choices",               alt |-> ""],
-  [c |-> 301, p |-> "Moved Permanently",              alt |-> ""],
-  [c |-> 302, p |-> "Found",                          alt |-> ""],
-  [c |-> 303, p |-> "See Other",                      alt |-> ""],
-  [c |-> 304, p |-> "Not Modified",                   alt |-> ""],
-  [c |-> 305, p |-> "Use Proxy",                      alt |-> ""],
-  [c |-> 307, p |-> "Temporary Redirect",             alt |-> ""],
-  [c |-> 400, p |-> "Bad Request",                    alt |-> ""],
-  [c |-> 401, p |-> "Unauthorized",                   alt |-> ""],
-  [c |-> 403, p |-> "Forbidden",                      alt |-> ""],
-  [c |-> 404, p |-> "Not Found",                      alt |-> ""],
-  [c |-> 405, p |-> "Method Not Allowed",             alt |-> ""],
-  [c |-> 406, p |-> "Not Acceptable",                 alt |-> ""],
-  [c |-> 407, p |-> "Proxy Authentication Required",  alt |-> ""],
-  [c |-> 408, p |-> "Request Timeout",                alt |-> ""],
-  [c |-> 409, p |-> "Conflict",                       alt |-> ""],
-  [c |-> 410, p |-> "Gone",                           alt |-> ""],
-  [c |-> 411, p |-> "Length Required",                alt |-> ""],
-  [c |-> 412, p |-> "Precondition Failed",            alt |-> ""],
-  [c |-> 413, p |-> "Payload Too Large",              alt |-> "Request Entity Too Large"],
-  [c |-> 414, p |-> "URI Too Long",                   alt |-> "Request-URI Too Long"],
-  [c |-> 415, p |-> "Unsupported Media Type",         alt |-> ""],
-  [c |-> 416, p |-> "Range Not Satisfiable",          alt |-> "Requested Range Not Satisfiable"],
-  [c |-> 417, p |-> "Expectation Failed",             alt |-> ""],
-  [c |-> 500, p |-> "Internal Server Error",          alt |-> ""],
-  [c |-> 501, p |-> "Not Implemented",                alt |-> ""],
-  [c |-> 502, p |-> "Bad Gateway",                    alt |-> ""],
-  [c |-> 503, p |-> "Service Unavailable",            alt |-> ""],
-  [c |-> 504, p |-> "Gateway Timeout",                alt |-> ""],
-  [c |-> 505, p |-> "HTTP Version Not Supported",     alt |-> ""] >>
+  [c |-> 100, p |-> "Continue",                       alt |-> "", alt2 |-> ""],
+  [c |-> 101, p |-> "Switching Protocols",            alt |-> "", alt2 |-> ""],
+  [c |-> 200, p |-> "OK",                             alt |-> "", alt2 |-> ""],
+  [c |-> 201, p |-> "Created",                        alt |-> "", alt2 |-> ""],
+  [c |-> 202, p |-> "Accepted",                       alt |-> "", alt2 |-> ""],
+  [c |-> 203, p |-> "Non-Authoritative Information",  alt |-> "", alt2 |-> ""],
+  [c |-> 204, p |-> "No Content",                     alt |-> "", alt2 |-> ""],
+  [c |-> 205, p |-> "Reset Content",                  alt |-> "", alt2 |-> ""],
+  [c |-> 206, p |-> "Partial Content",                alt |-> "", alt2 |-> ""],
+  [c |-> 300, p |-> "Multiple Choices",               alt |-> "", alt2 |-> ""],
+  [c |-> 301, p |-> "Moved Permanently",              alt |-> "", alt2 |-> ""],
+  [c |-> 302, p |-> "Found",                          alt |-> "", alt2 |-> ""],
+  [c |-> 303, p |-> "See Other",                      alt |-> "", alt2 |-> ""],
+  [c |-> 304, p |-> "Not Modified",                   alt |-> "", alt2 |-> ""],
+  [c |-> 305, p |-> "Use Proxy",                      alt |-> "", alt2 |-> ""],
+  [c |-> 307, p |-> "Temporary Redirect",             alt |-> "", alt2 |-> ""],
+  [c |-> 400, p |-> "Bad Request",                    alt |-> "", alt2 |-> ""],
+  [c |-> 401, p |-> "Unauthorized",                   alt |-> "", alt2 |-> ""],
+  [c |-> 403, p |-> "Forbidden",                      alt |-> "", alt2 |-> ""],
+  [c |-> 404, p |-> "Not Found",                      alt |-> "", alt2 |-> ""],
+  [c |-> 405, p |-> "Method Not Allowed",             alt |-> "", alt2 |-> ""],
+  [c |-> 406, p |-> "Not Acceptable",                 alt |-> "", alt2 |-> ""],
+  [c |-> 407, p |-> "Proxy Authentication Required",  alt |-> "", alt2 |-> ""],
+  [c |-> 408, p |-> "Request Timeout",                alt |-> "", alt2 |-> ""],
+  [c |-> 409, p |-> "Conflict",                       alt |-> "", alt2 |-> ""],
+  [c |-> 410, p |-> "Gone",                           alt |-> "", alt2 |-> ""],
+  [c |-> 411, p |-> "Length Required",                alt |-> "", alt2 |-> ""],
+  [c |-> 412, p |-> "Precondition Failed",            alt |-> "", alt2 |-> ""],
+  [c |-> 413, p |-> "Payload Too Large",              alt |-> "Request Entity Too Large", alt2 |-> "Content Too Large"],
+  [c |-> 414, p |-> "URI Too Long",                   alt |-> "Request-URI Too Long", alt2 |-> ""],
+  [c |-> 415, p |-> "Unsupported Media Type",         alt |-> "", alt2 |-> ""],
+  [c |-> 416, p |-> "Range Not Satisfiable",          alt |-> "Requested Range Not Satisfiable", alt2 |-> ""],
+  [c |-> 417, p |-> "Expectation Failed",             alt |-> "", alt2 |-> ""],
+  [c |-> 500, p |-> "Internal Server Error",          alt |-> "", alt2 |-> ""],
+  [c |-> 501, p |-> "Not Implemented",                alt |-> "", alt2 |-> ""],
+  [c |-> 502, p |-> "Bad Gateway",                    alt |-> "", alt2 |-> ""],
+  [c |-> 503, p |-> "Service Unavailable",            alt |-> "", alt2 |-> ""],
+  [c |-> 504, p |-> "Gateway Timeout",                alt |-> "", alt2 |-> ""],
+  [c |-> 505, p |-> "HTTP Version Not Supported",     alt |-> "", alt2 |-> ""] >>
 
 Codes == { StatusRows[i].c : i \in 1..Len(StatusRows) }
 RowOf == [c \in Codes |-> StatusRows[CHOOSE i \in 1..Len(StatusRows) : StatusRows[i].c = c]]
 Row(c) == RowOf[c]
-Phrases(c) == {Row(c).p} \cup (IF Row(c).alt = "" THEN {} ELSE {Row(c).alt})
+\* alt2: the phrase of RFC 9110 15.5.14, which is what the IANA registry lists today for 413
+Phrases(c) == ({Row(c).p, Row(c).alt, Row(c).alt2}) \ {""}
 \* RFC 7230 3.3.3 rule 1: these never carry a body; RFC 7231 6.3.6: neither does 205
 Bodiless(c) == c < 200 \/ c = 204 \/ c = 205 \/ c = 304
 
@@ -176,8 +178,11 @@ RenderResp(r, ph) == StatusLine(r.version, r.code, ph) \o CRLF \o HeaderBlock(r.
 \* The lifetime of a cookie is a std::time::Duration: c.maxage is its whole seconds as a string of decimal
 \* digits (a u64 - far beyond TLC's 32-bit integers, so it is never converted to a number), c.millis its
 \* sub-second part 0..999.  Max-Age takes whole seconds (RFC 6265 5.2.2: 1*DIGIT); neither RFC 6265 nor the
-\* documentation of SetCookie::with_max_age says what becomes of a fraction, so both truncation (what the
-\* code does, Duration::as_secs) and rounding to the nearest second are accepted: MaxAgeValues.
+\* documentation of SetCookie::with_max_age says what becomes of a fraction, so truncation (what the code
+\* does, Duration::as_secs), rounding to the nearest second and rounding up are all accepted: a lifetime
+\* with a fraction may come out as its whole seconds or one more (MaxAgeValues).
+\* Attribute names are ABNF literals, hence case-insensitive (RFC 5234 2.3; RFC 6265 5.2 compares them
+\* case-insensitively), and so is the SameSite value: attributes are compared after NormAv.
 AttrNames == {"Expires", "Max-Age", "Domain", "Path", "SameSite", "Secure", "HttpOnly"}
 AttrOrder == <<"Expires", "Max-Age", "Domain", "Path", "SameSite", "Secure", "HttpOnly">>
 \* successor of a natural number written in decimal
@@ -186,7 +191,7 @@ DecSucc(s) == IF s = "" THEN "1"
               ELSE LET d == DecMap[At(s, Len(s))] IN
                    IF d < 9 THEN Take(s, Len(s) - 1) \o At(DecDigits, d + 2) ELSE DecSucc(Take(s, Len(s) - 1)) \o "0"
 IsDecimal(s) == s # "" /\ \A i \in 1..Len(s) : At(s, i) \in DOMAIN DecMap
-MaxAgeValues(c) == {c.maxage} \cup (IF c.millis >= 500 THEN {DecSucc(c.maxage)} ELSE {})
+MaxAgeValues(c) == {c.maxage} \cup (IF c.millis > 0 THEN {DecSucc(c.maxage)} ELSE {})
 CookieAvWith(c, a, ma) ==
   CASE a = "Expires"  -> "Expires=" \o c.expires
     [] a = "Max-Age"  -> "Max-Age=" \o ma
@@ -209,9 +214,16 @@ SplitOn(s, sep) == LET i == Find(s, sep, 1) IN
                    IF i = 0 THEN <<s>> ELSE <<Take(s, i - 1)>> \o SplitOn(Drop(s, i + Len(sep) - 1), sep)
 DenoteSetCookie(s) == LET parts == SplitOn(s, "; ") IN
                       [pair |-> Head(parts), avs |-> {parts[i] : i \in 2..Len(parts)}, n |-> Len(parts) - 1]
+\* attribute name in lower case; the value kept as it is, except SameSite's
+NormAv(av) == LET i == Find(av, "=", 1) IN
+              IF i = 0 THEN Lower(av)
+              ELSE IF Lower(Take(av, i - 1)) = "samesite" THEN Lower(av)
+              ELSE Lower(Take(av, i - 1)) \o Drop(av, i - 1)
+NormAvs(S) == { NormAv(x) : x \in S }
 CookieMeans(s, c) == LET d == DenoteSetCookie(s) IN
                      /\ IsDecimal(c.maxage)
-                     /\ d.pair = c.name \o "=" \o c.value /\ d.avs \in CookieAvSets(c) /\ d.n = Cardinality(c.attrs)
+                     /\ d.pair = c.name \o "=" \o c.value /\ d.n = Cardinality(c.attrs)
+                     /\ NormAvs(d.avs) \in { NormAvs(S) : S \in CookieAvSets(c) }
 
 \* A conforming server's wire image.  style: [case: "asis"|"lower"|"upper", ows: whitespace after the colon].
 \* frames: <<text1, data1, text2, data2, ..., textN>> - odd elements are protocol text, even elements are
